@@ -455,6 +455,9 @@ pub fn finish(
         reported.push(v.sig.clone());
         exit = 1;
     }
+    if acc.outcomes.len() >= OUTCOME_CAP {
+        acc.notes.push(format!("distinct-outcome counting stopped at {} entries (the reported distinct counts are lower bounds; does not affect exhaustiveness)", OUTCOME_CAP));
+    }
     acc.samples.truncate(6);
     if acc.samples.is_empty() {
         acc.samples.push(json!("(no sample recorded)"));
